@@ -142,6 +142,47 @@ func init() {
 					}
 				})
 			}
+			// a todo service / parameter is declared: whoever refers to it (constructor, call, field, decorator argument, a tag
+			// it carries requested by !tagged, another parameter), under every flag combination, the configuration is accepted
+			for mask := 1; mask < 4; mask++ {
+				for fi, flags := range [][]string{nil, {"--ignore-missing-params"}, {"--ignore-missing-services"}, {"--stub"}} {
+					mask, fi, flags := mask, fi, flags
+					w.Case(fmt.Sprintf("verdict/every-referrer/todo=%02b/%d", mask, fi), func(c *C) {
+						cfg := &Cfg{Meta: stdMeta(), Params: []Param{{"plain", 1}, {"later", "%plain%"}, {"user", "<%later%>"}}}
+						if mask&1 != 0 {
+							cfg.Params[1] = Param{"later", `%todo("later")%`}
+						}
+						svc := Service{Name: "draft", Constructor: P("pk.New1"), Tags: []Tag{{Name: "drafts"}}}
+						if mask&2 != 0 {
+							svc = Service{Name: "draft", Todo: P(true), Tags: []Tag{{Name: "drafts"}}}
+						}
+						cfg.Services = []Service{svc,
+							{Name: "byCtor", Constructor: P("pk.New"), Args: []any{"@draft", "%later%"}},
+							{Name: "byCall", Constructor: P("pk.New"), Calls: []Call{{Method: "Set1", Args: []any{"x", "@draft"}}, {Method: "With1", Args: []any{"%later%", "%user%"}, Immutable: P(true)}}},
+							{Name: "byField", Value: P("pk.Obj{}"), Fields: []KV{{"F1", "@draft"}, {"F2", "%later%"}}},
+							{Name: "byTag", Constructor: P("pk2.New"), Args: []any{"!tagged drafts"}},
+							{Name: "decorated", Constructor: P("pk.New2"), Tags: []Tag{{Name: "dtg"}}},
+						}
+						cfg.Decorators = []Decorator{{Tag: "dtg", Decorator: "pk.Dec1", Args: []any{"@draft", "%later%"}}, {Tag: "drafts", Decorator: "pk.Dec2", Args: []any{"%user%"}}, {Tag: "*", Decorator: "pk.Dec3", Args: []any{"x"}}}
+						files := []File{{"c.yaml", cfg.YAML()}}
+						br := w.Build(files, flags...)
+						c.Distinct("all", c.ID)
+						c.Count("evaluations_extra")
+						c.Distinct("nontrivial", c.ID)
+						if br.Panic != "" {
+							c.Violation("panic", "tool panicked:\n"+br.Panic, FilesMap(files), nil)
+							return
+						}
+						if br.Exit != 0 {
+							key := "todo-config-rejected:every-referrer"
+							if strings.Contains(br.Out, "does not exist") {
+								key = "todo-reported-missing:every-referrer"
+							}
+							c.Violation(key, fmt.Sprintf("todo parameter / service (mask %02b) referred to from every kind of referrer, flags %v: rejected\n%s", mask, flags, strings.Join(ErrorLines(br.Out), "\n")), FilesMap(files), map[string]any{"flags": flags})
+						}
+					})
+				}
+			}
 			// message forms of %todo("...")%: the documented error carries the given message whatever it contains
 			w.Case("messages", func(c *C) {
 				msgs := []string{"", "x", "set me at run time", "à faire – później 😀", `say \"hi\"`, "a, (b), [c]", "phase 1,phase 2 ,phase 3  ,  pending", `27\" panel first`, `one \" two \" three \"`, "100\\x25 done \\x25d \\x25s \\x25!", "\\u0025v and \\045", "tab\there", "semi;colon: and 'quotes'", "very " + strings.Repeat("long ", 60)}
